@@ -66,8 +66,8 @@ Elem(v, j) == IF IsI(v) THEN v[2] ELSE v[2][j]
 \* a second interpretation of the user function symbols ("for all interpretations" is sampled by two)
 ApplyAlt(f, args, kw) ==
     CASE f = "<func>f" ->
-            IF Len(args) = 1 /\ IsI(args[1]) /\ IsI(KwGet(kw, "k", I(0))) /\ Abs(args[1][2]) <= 1000
-            THEN Clip(args[1][2] * args[1][2] - 3 * KwGet(kw, "k", I(0))[2] + 2) ELSE U
+            IF Len(args) = 1 /\ IsI(args[1]) /\ IsI(KwGet(kw, "k", I(0))) /\ IsI(KwGet(kw, "m", I(0))) /\ Abs(args[1][2]) <= 1000
+            THEN Clip(args[1][2] * args[1][2] - 3 * KwGet(kw, "k", I(0))[2] + 7 * KwGet(kw, "m", I(0))[2] + 2) ELSE U
       [] f = "<func>g" ->
             IF Len(args) = 2 /\ AllInts(args) THEN Clip(5 * args[1][2] - 2 * args[2][2] + 7) ELSE U
       [] OTHER -> U
@@ -75,8 +75,8 @@ ApplyAlt(f, args, kw) ==
 \* result of a call: a value, or a tuple of values <<"t", <<v1, v2>>>> for multi-result functions
 Apply(f, args, kw) ==
     CASE f = "<func>f" ->
-            IF Len(args) = 1 /\ IsI(args[1]) /\ IsI(KwGet(kw, "k", I(0)))
-            THEN Clip(2 * args[1][2] + KwGet(kw, "k", I(0))[2] + 1) ELSE U
+            IF Len(args) = 1 /\ IsI(args[1]) /\ IsI(KwGet(kw, "k", I(0))) /\ IsI(KwGet(kw, "m", I(0)))
+            THEN Clip(2 * args[1][2] + KwGet(kw, "k", I(0))[2] + 5 * KwGet(kw, "m", I(0))[2] + 1) ELSE U
       [] f = "<func>g" ->
             IF Len(args) = 2 /\ AllInts(args) /\ Abs(args[1][2]) <= 1000 /\ Abs(args[2][2]) <= 1000
             THEN Clip(args[1][2] * args[2][2] - args[1][2] + 3) ELSE U
